@@ -511,3 +511,324 @@ Proof.
   - split; [apply rank_lt; exact Hhv | apply rank_inj; assumption].
   - split; [exact Hv | auto].
 Qed.
+
+(* ---------------------------------------------------------------------------------------------
+   generate is total on well-sized draws (the hypotheses "generate ... = Some out" are satisfiable
+   for every method, shape, mask and shared flag)
+   --------------------------------------------------------------------------------------------- *)
+Definition raw_ok (m : method) (n D : nat) (rw : raw) : Prop :=
+  match rw with
+  | RawStats flat => is_qmc m = false /\ length flat = n * D
+  | RawQmc pts => is_qmc m = true /\ length pts = n /\ Forall (fun pt => length pt = D) pts
+  end.
+
+Theorem generate_total m sh R P V mask rw :
+  mask_len V mask -> raw_ok m (sample_R sh R * P) (sample_dim V mask) rw ->
+  exists out, generate m sh R P V mask rw = Some out.
+Proof.
+  intros Hm Hr. unfold generate. cbn zeta. fold (sample_R sh R).
+  assert (E : exists s, raw_rows m (sample_R sh R) P (sample_dim V mask) rw = Some s).
+  { unfold raw_rows. destruct rw as [flat|pts]; cbn [raw_ok] in Hr.
+    - destruct Hr as [-> Hl]. unfold stats_samples, reshape3. rewrite Hl, Nat.eqb_refl. eexists; reflexivity.
+    - destruct Hr as [-> [Hl Hall]]. unfold qmc_samples. rewrite Hl, Nat.eqb_refl. cbn [andb].
+      assert (F : forallb (fun pt => Nat.eqb (length pt) (sample_dim V mask)) pts = true).
+      { apply forallb_forall. intros pt Hpt. rewrite Forall_forall in Hall. apply Nat.eqb_eq. apply Hall; exact Hpt. }
+      rewrite F. unfold reshape3.
+      rewrite (length_concat_uniform (sample_dim V mask)).
+      + rewrite map_length, Hl, Nat.eqb_refl. eexists; reflexivity.
+      + apply Forall_forall. intros r Hr. apply in_map_iff in Hr as [pt [<- Hpt]]. rewrite map_length.
+        rewrite Forall_forall in Hall. apply Hall; exact Hpt. }
+  destruct E as [s ->]. destruct mask as [mk|]; [|eexists; reflexivity].
+  cbn in Hm. rewrite Hm, Nat.eqb_refl. eexists; reflexivity.
+Qed.
+
+(* ---------------------------------------------------------------------------------------------
+   _perturb_variables: calling order of the samplers
+   --------------------------------------------------------------------------------------------- *)
+Lemma first_appearance_In seen a s : In s (first_appearance seen a) <-> (In s a /\ (0 <= s)%Z /\ ~ In s seen).
+Proof.
+  revert seen; induction a as [|x a IH]; intros seen; cbn [first_appearance].
+  - split; [intros [] | intros [[] _]].
+  - destruct (Z.ltb x 0) eqn:Ex; cbn [orb].
+    + apply Z.ltb_lt in Ex. rewrite IH. split.
+      * intros [Ha Hr]. split; [right; exact Ha | exact Hr].
+      * intros [[->|Ha] [Hn Hs]]; [lia | split; [exact Ha | split; assumption]].
+    + apply Z.ltb_ge in Ex. destruct (existsb (Z.eqb x) seen) eqn:Es.
+      * apply existsb_exists in Es as [y [Hy Exy]]. apply Z.eqb_eq in Exy. subst y. rewrite IH. split.
+        -- intros [Ha Hr]. split; [right; exact Ha | exact Hr].
+        -- intros [[->|Ha] [Hn Hs]]; [contradiction | split; [exact Ha | split; assumption]].
+      * assert (Hx : ~ In x seen).
+        { intros Hin. assert (existsb (Z.eqb x) seen = true) as C; [|congruence].
+          apply existsb_exists. exists x. split; [exact Hin | apply Z.eqb_refl]. }
+        cbn [In]. rewrite IH. cbn [In]. split.
+        -- intros [<-|[Ha [Hn Hs]]]; [split; [left; reflexivity | split; [exact Ex | exact Hx]]|].
+           split; [right; exact Ha | split; [exact Hn | intros Hin; apply Hs; right; exact Hin]].
+        -- intros [[->|Ha] [Hn Hs]]; [left; reflexivity|].
+           destruct (Z.eq_dec x s) as [->|Hne]; [left; reflexivity|].
+           right. split; [exact Ha | split; [exact Hn | intros [E|Hin]; [congruence | contradiction]]].
+Qed.
+
+Lemma first_appearance_NoDup seen a : NoDup (first_appearance seen a).
+Proof.
+  revert seen; induction a as [|x a IH]; intros seen; cbn [first_appearance]; [constructor|].
+  destruct (Z.ltb x 0 || existsb (Z.eqb x) seen); [apply IH|].
+  constructor; [|apply IH]. rewrite first_appearance_In. intros [_ [_ Hs]]. apply Hs. left; reflexivity.
+Qed.
+
+Lemma existsb_In s l : existsb (Z.eqb s) l = true <-> In s l.
+Proof.
+  rewrite existsb_exists. split.
+  - intros [y [Hy E]]. apply Z.eqb_eq in E. subst y. exact Hy.
+  - intros H. exists s. split; [exact H | apply Z.eqb_refl].
+Qed.
+
+Lemma bool_eq_iff (a b : bool) : (a = true <-> b = true) -> a = b.
+Proof. destruct a, b; intros [H1 H2]; try reflexivity; [symmetry; apply H1; reflexivity | apply H2; reflexivity]. Qed.
+
+Definition skip_entry (s : Z) (before : list Z) : bool := Z.ltb s 0 || existsb (Z.eqb s) before.
+
+Lemma skip_entry_iff s before : skip_entry s before = true <-> ((s < 0)%Z \/ In s before).
+Proof. unfold skip_entry. rewrite orb_true_iff, Z.ltb_lt, existsb_In. reflexivity. Qed.
+
+(* a later entry never moves in front of an earlier one: appending an entry to gradient.samplers appends
+   its sampler to the calling order, or changes nothing when it is negative or was seen before *)
+Lemma first_appearance_snoc seen a s :
+  first_appearance seen (a ++ [s]) = first_appearance seen a ++ (if skip_entry s (seen ++ a) then [] else [s]).
+Proof.
+  revert seen; induction a as [|x a IH]; intros seen.
+  - cbn [app first_appearance]. rewrite app_nil_r. fold (skip_entry s seen). destruct (skip_entry s seen); reflexivity.
+  - cbn [app first_appearance]. fold (skip_entry x seen).
+    destruct (skip_entry x seen) eqn:Ex.
+    + rewrite IH. f_equal. replace (skip_entry s (seen ++ x :: a)) with (skip_entry s (seen ++ a)); [reflexivity|].
+      apply bool_eq_iff. rewrite !skip_entry_iff, !in_app_iff. cbn [In].
+      apply skip_entry_iff in Ex. split.
+      * intros [H|[H|H]]; auto.
+      * intros [H|[H|[->|H]]]; auto. destruct Ex as [Ex|Ex]; auto.
+    + cbn [app]. rewrite IH. f_equal. f_equal.
+      replace (skip_entry s (seen ++ x :: a)) with (skip_entry s ((x :: seen) ++ a)); [reflexivity|].
+      apply bool_eq_iff. rewrite !skip_entry_iff, !in_app_iff. cbn [In]. tauto.
+Qed.
+
+Theorem sampler_order_NoDup assign : NoDup (sampler_order assign).
+Proof.
+  destruct assign as [a|]; cbn [sampler_order]; [|constructor; [intros [] | constructor]].
+  pose proof (first_appearance_NoDup [] a) as N.
+  assert (Hpos : forall s, In s (first_appearance [] a) -> (0 <= s)%Z) by (intros s Hs; apply first_appearance_In in Hs; tauto).
+  induction N as [|s l Hs N IH]; cbn [map]; [constructor|].
+  constructor; [|apply IH; intros t Ht; apply Hpos; right; exact Ht].
+  intros Hin. apply in_map_iff in Hin as [t [Et Ht]]. apply Hs.
+  assert (t = s) as <-; [|exact Ht].
+  pose proof (Hpos s (or_introl eq_refl)). pose proof (Hpos t (or_intror Ht)). lia.
+Qed.
+
+Theorem sampler_order_In a k : In k (sampler_order (Some a)) <-> In (Z.of_nat k) a.
+Proof.
+  cbn [sampler_order]. rewrite in_map_iff. split.
+  - intros [s [<- Hs]]. apply first_appearance_In in Hs as [Ha [Hn _]]. rewrite Z2Nat.id by exact Hn. exact Ha.
+  - intros Ha. exists (Z.of_nat k). split; [apply Nat2Z.id|]. apply first_appearance_In.
+    split; [exact Ha | split; [lia | intros []]].
+Qed.
+
+Theorem sampler_order_snoc a s :
+  sampler_order (Some (a ++ [s])) =
+  sampler_order (Some a) ++ (if skip_entry s a then [] else [Z.to_nat s]).
+Proof.
+  cbn [sampler_order]. rewrite first_appearance_snoc, map_app. cbn [app]. destruct (skip_entry s a); reflexivity.
+Qed.
+
+(* ---------------------------------------------------------------------------------------------
+   _perturb_variables: the sum over the samplers gives every variable its own sampler's sample
+   --------------------------------------------------------------------------------------------- *)
+Local Open Scope Q_scope.
+
+Definition ent (a : arr3) (r p v : nat) : Q := nth v (nth p (nth r a []) []) 0.
+
+Lemma zip_with_nth {A B C} (f : A -> B -> option C) (Pr : A -> B -> C -> Prop) da db dc :
+  Pr da db dc -> (forall x y z, f x y = Some z -> Pr x y z) ->
+  forall a b c, zip_with f a b = Some c -> forall i, Pr (nth i a da) (nth i b db) (nth i c dc).
+Proof.
+  intros Hd Hf a. induction a as [|x a IH]; intros [|y b] c H i; cbn [zip_with] in H; try discriminate.
+  - injection H as <-. destruct i; exact Hd.
+  - destruct (f x y) as [z|] eqn:Ez; [|discriminate].
+    destruct (zip_with f a b) as [t|] eqn:Et; [|discriminate]. injection H as <-.
+    destruct i as [|i]; cbn [nth]; [apply Hf; exact Ez | apply IH; exact Et].
+Qed.
+
+Lemma nth_nil_Q i : nth i (@nil Q) 0 = 0. Proof. destruct i; reflexivity. Qed.
+Lemma nth_nil_l {A} i : nth i (@nil (list A)) [] = []. Proof. destruct i; reflexivity. Qed.
+
+Lemma add_vec_nth a b c : add_vec a b = Some c -> forall v, nth v c 0 == nth v a 0 + nth v b 0.
+Proof.
+  intros H v. apply (zip_with_nth (fun x y => Some (x + y)) (fun x y z => z == x + y) 0 0 0); [ring| |exact H].
+  intros x y z E. injection E as <-. reflexivity.
+Qed.
+
+Lemma add3_ent a b c r p v : add3 a b = Some c -> ent c r p v == ent a r p v + ent b r p v.
+Proof.
+  intros H. unfold ent.
+  apply (zip_with_nth (zip_with add_vec)
+           (fun x y z => forall p v, nth v (nth p z []) 0 == nth v (nth p x []) 0 + nth v (nth p y []) 0) [] [] []);
+    [| |exact H].
+  - intros p' v'. rewrite !nth_nil_l, !nth_nil_Q. ring.
+  - intros x y z E p' v'.
+    apply (zip_with_nth add_vec (fun x y z => forall v, nth v z 0 == nth v x 0 + nth v y 0) [] [] []); [| |exact E].
+    + intros v''. rewrite !nth_nil_Q. ring.
+    + intros x' y' z' E'. apply add_vec_nth; exact E'.
+Qed.
+
+Definition add_opt (acc o' : option arr3) : option arr3 :=
+  match acc, o' with Some a, Some b => add3 a b | _, _ => None end.
+
+Lemma fold_add_none l : fold_left add_opt l None = None.
+Proof. induction l as [|o l IH]; [reflexivity | exact IH]. Qed.
+
+Lemma fold_add3_ent r p v : forall (t : list arr3) acc tot,
+  fold_left add_opt (map Some t) (Some acc) = Some tot ->
+  ent tot r p v == ent acc r p v + qsum (map (fun o => ent o r p v) t).
+Proof.
+  induction t as [|o t IH]; intros acc tot H; cbn [map fold_left] in H.
+  - injection H as <-. cbn [map]. rewrite qsum_nil. ring.
+  - cbn [add_opt] in H. destruct (add3 acc o) as [s|] eqn:Es; [|rewrite fold_add_none in H; discriminate].
+    rewrite (IH _ _ H). cbn [map]. rewrite qsum_cons. rewrite (add3_ent _ _ _ r p v Es). ring.
+Qed.
+
+Lemma total_samples_ent outs tot r p v :
+  total_samples (map Some outs) = Some tot -> ent tot r p v == qsum (map (fun o => ent o r p v) outs).
+Proof.
+  destruct outs as [|o t]; cbn [map total_samples]; [discriminate|].
+  intros H. change (fold_left add_opt (map Some t) (Some o) = Some tot) in H.
+  rewrite (fold_add3_ent r p v _ _ _ H). rewrite qsum_cons. reflexivity.
+Qed.
+
+Lemma qsum_all_zero l : (forall x, In x l -> x == 0) -> qsum l == 0.
+Proof.
+  induction l as [|x l IH]; intros H; [rewrite qsum_nil; reflexivity|].
+  rewrite qsum_cons, IH, (H x (or_introl eq_refl)); [ring|]. intros y Hy. apply H. right; exact Hy.
+Qed.
+
+Lemma qsum_one l1 x l2 : (forall y, In y l1 -> y == 0) -> (forall y, In y l2 -> y == 0) -> qsum (l1 ++ x :: l2) == x.
+Proof. intros H1 H2. rewrite qsum_app, qsum_cons, (qsum_all_zero l1 H1), (qsum_all_zero l2 H2). ring. Qed.
+
+Theorem total_selects_owner (owner : nat -> bool) order (outs : list arr3) tot r p v :
+  length outs = length order ->
+  (forall i k o, nth_error order i = Some k -> nth_error outs i = Some o -> owner k = false -> ent o r p v == 0) ->
+  (forall i j k k', nth_error order i = Some k -> nth_error order j = Some k' -> i <> j -> owner k = true -> owner k' = false) ->
+  total_samples (map Some outs) = Some tot ->
+  (forall i k o, nth_error order i = Some k -> nth_error outs i = Some o -> owner k = true -> ent tot r p v == ent o r p v) /\
+  ((forall k, In k order -> owner k = false) -> ent tot r p v == 0).
+Proof.
+  intros Hlen Hz Hu Ht. pose proof (total_samples_ent _ _ r p v Ht) as E. split.
+  - intros i k o Hk Ho Hown. rewrite E.
+    destruct (nth_error_split _ _ Ho) as [l1 [l2 [-> Hi]]]. rewrite map_app. cbn [map]. apply qsum_one.
+    + intros y Hy. apply in_map_iff in Hy as [o' [<- Ho']]. apply In_nth_error in Ho' as [j Hj].
+      assert (Hjl : (j < length l1)%nat) by (apply nth_error_Some; congruence).
+      assert (Hj' : nth_error (l1 ++ o :: l2) j = Some o') by (rewrite nth_error_app1 by exact Hjl; exact Hj).
+      destruct (nth_error order j) as [k'|] eqn:Ek'.
+      * apply (Hz j k' o' Ek' Hj'). apply (Hu i j k k' Hk Ek'); [lia | exact Hown].
+      * apply nth_error_None in Ek'. rewrite <- Hlen, app_length in Ek'. cbn [length] in Ek'. lia.
+    + intros y Hy. apply in_map_iff in Hy as [o' [<- Ho']]. apply In_nth_error in Ho' as [j Hj].
+      assert (Hj' : nth_error (l1 ++ o :: l2) (length l1 + S j) = Some o').
+      { rewrite nth_error_app2 by lia. replace (length l1 + S j - length l1)%nat with (S j) by lia. exact Hj. }
+      destruct (nth_error order (length l1 + S j)) as [k'|] eqn:Ek'.
+      * apply (Hz _ k' o' Ek' Hj'). apply (Hu i _ k k' Hk Ek'); [lia | exact Hown].
+      * apply nth_error_None in Ek'. rewrite <- Hlen, app_length in Ek'. cbn [length] in Ek'.
+        assert ((j < length l2)%nat) by (apply nth_error_Some; congruence). lia.
+  - intros Hall. rewrite E. apply qsum_all_zero. intros y Hy. apply in_map_iff in Hy as [o [<- Ho]].
+    apply In_nth_error in Ho as [j Hj].
+    destruct (nth_error order j) as [k'|] eqn:Ek'.
+    + apply (Hz j k' o Ek' Hj). apply Hall. eapply nth_error_In; exact Ek'.
+    + apply nth_error_None in Ek'. assert ((j < length outs)%nat) by (apply nth_error_Some; congruence). lia.
+Qed.
+
+Lemma generate_ent_zero m sh R P V mask rw out r p v :
+  generate m sh R P V mask rw = Some out -> (v < V)%nat -> handled mask v = false -> ent out r p v = 0.
+Proof.
+  intros G Hv Hh. unfold ent.
+  destruct (nth_error out r) as [blk|] eqn:Eb.
+  - rewrite (nth_error_nth _ _ _ Eb). destruct (nth_error blk p) as [vec|] eqn:Ev.
+    + rewrite (nth_error_nth _ _ _ Ev).
+      apply (nth_error_nth _ _ 0). eapply generate_unhandled_zero; eassumption.
+    + apply nth_error_None in Ev. rewrite (nth_overflow blk [] Ev). apply nth_nil_Q.
+  - apply nth_error_None in Eb. rewrite (nth_overflow out [] Eb), nth_nil_l. apply nth_nil_Q.
+Qed.
+
+Lemma Forall2_nth_error {A B} (Pr : A -> B -> Prop) l1 l2 : Forall2 Pr l1 l2 ->
+  length l1 = length l2 /\ forall i x, nth_error l1 i = Some x -> exists y, nth_error l2 i = Some y /\ Pr x y.
+Proof.
+  induction 1 as [|x y l1 l2 Hxy _ [IHl IH]]; [split; [reflexivity | intros [|i] x H; discriminate]|].
+  split; [cbn; f_equal; exact IHl|]. intros [|i] x' H'; cbn in H' |- *.
+  - injection H' as <-. exists y. split; [reflexivity | exact Hxy].
+  - apply IH; exact H'.
+Qed.
+
+Lemma Forall2_nth_error_r {A B} (Pr : A -> B -> Prop) l1 l2 : Forall2 Pr l1 l2 ->
+  forall i x y, nth_error l1 i = Some x -> nth_error l2 i = Some y -> Pr x y.
+Proof.
+  intros F i x y Hx Hy. destruct (Forall2_nth_error _ _ _ F) as [_ H]. destruct (H i x Hx) as [y' [Hy' Hp]]. congruence.
+Qed.
+
+(* every free variable with a sampler gets exactly that sampler's sample; fixed variables and variables
+   without a sampler (-1) are not perturbed.  [cfg k] = (method, shared) of sampler configuration k. *)
+Theorem perturbation_sum (cfg : nat -> method * bool) R P V a varmask outs tot r p v :
+  mask_len V varmask -> length a = V -> (v < V)%nat ->
+  Forall2 (fun k o => exists rw, generate (fst (cfg k)) (snd (cfg k)) R P V (get_mask k (Some a) varmask) rw = Some o)
+          (sampler_order (Some a)) outs ->
+  total_samples (map Some outs) = Some tot ->
+  (forall k, handled varmask v = true -> nth v a (-1)%Z = Z.of_nat k ->
+     exists i o, nth_error (sampler_order (Some a)) i = Some k /\ nth_error outs i = Some o /\ ent tot r p v == ent o r p v) /\
+  (handled varmask v = false \/ (nth v a (-1) < 0)%Z -> ent tot r p v == 0).
+Proof.
+  intros Hm Ha Hv F Ht.
+  destruct (Forall2_nth_error _ _ _ F) as [Hlen Hnth].
+  destruct (total_selects_owner (fun k => handled (get_mask k (Some a) varmask) v) (sampler_order (Some a)) outs tot r p v)
+    as [T1 T2]; [symmetry; exact Hlen | | | exact Ht |].
+  - intros i k o Hk Ho Hown. destruct (Forall2_nth_error_r _ _ _ F i k o Hk Ho) as [rw G].
+    rewrite (generate_ent_zero _ _ _ _ _ _ _ _ r p v G Hv Hown). reflexivity.
+  - intros i j k k' Hk Hk' Hij Hown. apply (get_mask_disjoint V k k'); try assumption.
+    intros ->. pose proof (sampler_order_NoDup (Some a)) as N.
+    apply Hij. eapply (proj1 (NoDup_nth_error _) N); [apply nth_error_Some; congruence | congruence].
+  - split.
+    + intros k Hh Hk.
+      assert (Hin : In k (sampler_order (Some a))).
+      { apply sampler_order_In. rewrite <- Hk. apply nth_In. lia. }
+      apply In_nth_error in Hin as [i Hi]. destruct (Hnth i k Hi) as [o [Ho _]].
+      exists i, o. split; [exact Hi|]. split; [exact Ho|]. apply (T1 i k o Hi Ho).
+      rewrite (get_mask_spec V) by (cbn; assumption). rewrite Hh. cbn. rewrite Hk. apply Z.eqb_refl.
+    + intros Hcase. apply T2. intros k _. rewrite (get_mask_spec V) by (cbn; assumption).
+      destruct Hcase as [->|Hneg]; [reflexivity|]. cbn.
+      replace (Z.eqb (nth v a (-1)%Z) (Z.of_nat k)) with false; [apply andb_false_r|].
+      symmetry. apply Z.eqb_neq. lia.
+Qed.
+
+(* ---- variables + magnitudes * samples ------------------------------------------------------- *)
+Lemma map_opt_nth {A B} (f : A -> option B) l res : map_opt f l = Some res ->
+  length res = length l /\ forall i a, nth_error l i = Some a -> exists b, nth_error res i = Some b /\ f a = Some b.
+Proof.
+  revert res; induction l as [|x l IH]; intros res H; cbn [map_opt] in H.
+  - injection H as <-. split; [reflexivity | intros [|i] a E; discriminate].
+  - destruct (f x) as [y|] eqn:Ey; [|discriminate]. destruct (map_opt f l) as [t|] eqn:Et; [|discriminate].
+    injection H as <-. destruct (IH t eq_refl) as [Hl Hn]. split; [cbn; f_equal; exact Hl|].
+    intros [|i] a E; cbn in E |- *; [injection E as <-; exists y; split; [reflexivity | exact Ey] | apply Hn; exact E].
+Qed.
+
+Lemma perturb_vec_nth x : forall mag vec res, perturb_vec x mag vec = Some res ->
+  length res = length x /\ length vec = length x /\
+  forall v, nth v res 0 == nth v x 0 + nth v mag 0 * nth v vec 0.
+Proof.
+  induction x as [|xi x IH]; intros [|mi mag] [|si vec] res H; cbn [perturb_vec] in H; try discriminate.
+  - injection H as <-. split; [reflexivity|]. split; [reflexivity|]. intros v. rewrite !nth_nil_Q. ring.
+  - destruct (perturb_vec x mag vec) as [t|] eqn:Et; [|discriminate]. injection H as <-.
+    destruct (IH _ _ _ Et) as [H1 [H2 H3]]. split; [cbn; f_equal; exact H1|]. split; [cbn; f_equal; exact H2|].
+    intros [|v]; cbn [nth]; [reflexivity | apply H3].
+Qed.
+
+Theorem perturb_ent x mag samples res r p v blk vec :
+  perturb x mag samples = Some res -> nth_error samples r = Some blk -> nth_error blk p = Some vec ->
+  ent res r p v == nth v x 0 + nth v mag 0 * ent samples r p v.
+Proof.
+  intros H Hb Hv. unfold perturb in H. destruct (map_opt_nth _ _ _ H) as [_ Hn].
+  destruct (Hn r blk Hb) as [rb [Hrb Eb]]. destruct (map_opt_nth _ _ _ Eb) as [_ Hn'].
+  destruct (Hn' p vec Hv) as [rv [Hrv Ev]]. destruct (perturb_vec_nth _ _ _ _ Ev) as [_ [_ Hq]].
+  unfold ent. rewrite (nth_error_nth _ _ _ Hrb), (nth_error_nth _ _ _ Hrv), (nth_error_nth _ _ _ Hb), (nth_error_nth _ _ _ Hv).
+  apply Hq.
+Qed.
